@@ -795,7 +795,9 @@ void gen_item(Rng &r, Plan &p, bool c17, bool misuse) {
     static const int bases[] = {2, 8, 10, 16, 10, 16};
     if (!c17 && r.chance(1, 3000)) {
         // a response unit with more than 32767 items (ASCII array): item counters must not wrap
-        p.ops.push_back(Op("it", {IT_ARRAY, (long) (r.chance(1, 2) ? E_I8 : E_U8), 0, r.range(32760, 40000), (long) r.below(1000000)}));
+        // (just past 2^15 and just past 2^16 items, then one more item so that the separator after the wrap point is seen)
+        p.ops.push_back(Op("it", {IT_ARRAY, (long) (r.chance(1, 2) ? E_I8 : E_U8), 0, r.chance(1, 2) ? r.range(32760, 40000) : r.range(65530, 69000), (long) r.below(1000000)}));
+        p.ops.push_back(Op("it", {IT_I32, 7}));
         return;
     }
     if (c17 && r.chance(1, 4000)) {
